@@ -20,7 +20,12 @@ Three layers, as in the code:
   the inner future completes with `Ok` the response is inserted (at *that* instant) and returned,
   errors and panics are passed through and nothing is stored. Concurrent misses on one key each
   call the inner service; the later completion overwrites. `SharedCacheLayer` = the same store
-  behind several services: one model state, `svc` is only echoed.
+  behind several services: one model state, `svc` is only echoed. Several services built from one
+  *plain* `CacheLayer` value have a store each: independent copies of this model, each run on the
+  operations that concern it (`runAt`, section "several services built from one layer value").
+  A TTL of zero (`ttl := some 0`, `Duration::ZERO`) is a TTL: `now − inserted_at > 0` — an entry is
+  served at the instant it was stored and has expired as soon as the clock has moved; it is not
+  `none`.
 
 Ghost fields (never read by the transitions): `used`, `born` on entries (logical instants of the
 last use / of the insertion that created the entry), `tick`, `stored` (every successful
@@ -240,6 +245,37 @@ def stepS (cfg : Cfg) (s : State) (op : Op) : State :=
 def init : State := {}
 def run (cfg : Cfg) (ops : List Op) : State := ops.foldl (stepS cfg) init
 
+/-! ## several services built from one layer value
+
+`CacheLayer::layer` builds a **new store for every service** (`layer.rs`, "State Isolation": "Each call
+to `layer()` creates a new cache store"); `SharedCacheLayer::layer` (`shared_layer.rs`) hands the one
+`Arc<Mutex<CacheStore>>` of the layer value to every service, and so does a layer obtained by
+`CacheLayer::shared()`. Clones of a service (`Cache::clone`) and every handle derived from them share the
+store of that service in both cases; clones of a layer value behave like the layer value.
+
+With `n` stores, a request made on service `svc` concerns store `svc % n`; the clock, polls and drops
+concern every store (a poll or drop of a caller that has nothing parked or pending in a store is a
+no-op there, `poll`/`dropC` by definition). The state of store `i` after a history is the state of a
+single-store cache after the history *projected* to that store: the stores do not interact. -/
+
+/-- number of stores behind `nsvc` services built from one layer value -/
+def nStores (shared : Bool) (nsvc : Nat) : Nat := if shared then 1 else (if nsvc = 0 then 1 else nsvc)
+
+/-- does the operation concern store `i` of `n`? -/
+def concerns (n i : Nat) : Op → Bool
+  | .arrive _ _ svc _ => svc % n == i
+  | _ => true
+
+/-- the history as store `i` sees it -/
+def proj (n i : Nat) (ops : List Op) : List Op := ops.filter (concerns n i)
+
+/-- state of store `i` (of `n`) after `ops` -/
+def runAt (cfg : Cfg) (n i : Nat) (ops : List Op) : State := run cfg (proj n i ops)
+
+/-- what `CacheConfigBuilder::new()` / `SharedCacheConfigBuilder::new()` (and their `Default` impls)
+configure when no setter is called: `max_size` 100, no TTL, LRU -/
+def builderDefaults : Cfg := { max := 100, ttl := none, policy := .lru }
+
 /-! ## line protocol
 
 The LFU victim among ties is not observable when it is chosen (the store is private and every
@@ -249,7 +285,15 @@ and an explicit allowed `w`), and prunes it with the one thing the implementatio
 adapter appends `@hit=0|1` to every `arrive` line. An empty set means that no allowed choice
 explains the implementation (`choice-not-allowed`). All surviving states agree on the events
 (the value of a hit is the latest stored one in every state, theorem `hit_is_latest`). Under
-LRU and FIFO the set is always a singleton and the annotation is not used. -/
+LRU and FIFO the set is always a singleton and the annotation is not used.
+
+Header: `max` / `policy` / `ttl` absent = the builder's documented default (`builderDefaults`);
+`shared=0|1|2` and `nsvc=<n>` give the number of stores (`nStores`); `listen=1`: the layer value has
+`on_hit` / `on_miss` / `on_eviction` listeners, `probe events` prints how often each has fired (the
+counters are kept by the driver, `XState`; the `Eviction` event follows `lib.rs`: the store was full
+*before* the insert). Words the model does not read: `h=<j>` (which handle of the service makes the
+call: all handles of a service share its store), `lc=1` (the service is built from a clone of the
+layer value), `name=`, `via=` (which constructor produced the builder). -/
 
 def parseOp (ws : List String) : Option Op :=
   match ws with
@@ -276,24 +320,52 @@ def victimChoices (cfg : Cfg) (s : State) : List Nat :=
 def dedup (l : List State) : List State :=
   l.foldl (fun acc s => if acc.contains s then acc else acc ++ [s]) []
 
+/-- one store as the driver tracks it: the candidate model states, and the map from the store's own
+serial numbers (0, 1, 2, … in the order of *its* inner calls — the numbering of `State.serial`) to the
+serial numbers of the case (the scripted inner service numbers the inner calls of all services of a case
+consecutively) -/
 structure MState where
   cfg   : Cfg
   cands : List State
+  ser   : List (Nat × Nat) := []
+  listen : Bool := false     -- an `on_eviction` listener is registered: the adapter marks the polls during which it fired (`@ev=1`)
 
-def mstep (m : MState) (ws : List String) : MState × List Ev :=
+/-- an `Ok` completion happened in this step (the specification map grew) -/
+def okDone (s s' : State) : Bool := s'.stored.length != s.stored.length
+
+/-- `lib.rs:223-252`: the `Eviction` event is emitted after an `Ok` completion iff the store held at
+least `max_size` entries just **before** the insert (`store.len() >= config.max_size`) — also when the
+key was present and merely updated; never for a TTL expiry -/
+def evictionEvent (cfg : Cfg) (s s' : State) : Bool := okDone s s' && decide (s.store.length ≥ cfg.max)
+
+/-- one operation on one store: new driver state, the events of the step (store-local serials), a
+`choice-not-allowed` flag, and whether the step emitted an `Eviction` event to the listeners.
+Under LFU the candidates may disagree on the latter (their stores can differ in length after a lazy
+expiry-removal); only then is the adapter's observation consulted (`@ev=1` on the `poll` line during
+which the `on_eviction` listener fired; cases with `listen=1` only). -/
+def mstep (m : MState) (ws : List String) : MState × List Ev × Bool :=
   let old := m.cands.headD init
   match parseOp ws with
-  | none => (m, [])
+  | none => (m, [], false)
   | some op =>
-    let (next, flag) : List State × Bool :=
+    let (next, flag, ev) : List State × Bool × Bool :=
       match op with
       | .poll c _ =>
           let explicit := (parseKv ws).get "@victim"
-          let nx := m.cands.flatMap fun s =>
+          let nx : List (State × Bool) := m.cands.flatMap fun s =>
             match explicit with
-            | some _ => [stepS m.cfg s op]
-            | none => (victimChoices m.cfg s).map fun w => stepS m.cfg s (.poll c w)
-          (dedup nx, false)
+            | some _ => [(stepS m.cfg s op, evictionEvent m.cfg s (stepS m.cfg s op))]
+            | none => (victimChoices m.cfg s).map fun w =>
+                (stepS m.cfg s (.poll c w), evictionEvent m.cfg s (stepS m.cfg s (.poll c w)))
+          let flags := nx.map (·.2)
+          let ambiguous := flags.contains true && flags.contains false
+          let agree (p : State × Bool) : Bool :=
+            match (parseKv ws).get "@ev" with
+            | some "1" => p.2
+            | _ => if m.listen then !p.2 else true
+          let ok := if ambiguous then nx.filter agree else nx
+          let fin := if ok.isEmpty then nx else ok
+          (dedup (fin.map (·.1)), ok.isEmpty && !nx.isEmpty, (fin.headD (init, false)).2)
       | .arrive c _ _ _ =>
           let nx := m.cands.map (stepS m.cfg · op)
           let agree (s' : State) : Bool :=
@@ -302,17 +374,76 @@ def mstep (m : MState) (ws : List String) : MState × List Ev :=
             | some "0" => (lookup s'.hits c).isNone
             | _ => true
           let ok := nx.filter agree
-          if ok.isEmpty then (dedup nx, nx.length > 1) else (dedup ok, false)
-      | _ => (m.cands.map (stepS m.cfg · op), false)
+          if ok.isEmpty then (dedup nx, nx.length > 1, false) else (dedup ok, false, false)
+      | _ => (m.cands.map (stepS m.cfg · op), false, false)
     let new := next.headD init
-    ({ m with cands := next }, new.log.drop old.log.length ++ (if flag then [.raw "choice-not-allowed"] else []))
+    ({ m with cands := next }, new.log.drop old.log.length ++ (if flag then [.raw "choice-not-allowed"] else []), ev)
+
+/-- the driver's state for a case: one `MState` per store (`nStores`), the number of inner calls made so
+far in the case, and the listener counters of the layer value (`on_hit` / `on_miss` / `on_eviction`: the
+listeners live in the `CacheConfig`, which every service built from the layer value shares) -/
+structure XState where
+  cfg    : Cfg
+  stores : List MState
+  gser   : Nat := 0
+  listen : Bool := false
+  hitN   : Nat := 0
+  missN  : Nat := 0
+  evN    : Nat := 0
+
+def trSerial (ser : List (Nat × Nat)) (k : Nat) : Nat := (lookup ser k).getD k
+
+/-- an event of one store, its serial numbers translated to those of the case -/
+def trEv (ser : List (Nat × Nat)) : Ev → Ev
+  | .innerCall c k => .innerCall c (trSerial ser k)
+  | .innerDone c k o => .innerDone c (trSerial ser k) o
+  | .innerDrop c k => .innerDrop c (trSerial ser k)
+  | .result c (.ok v) => .result c (.ok (trSerial ser v))
+  | .result c (.inner kd v) => .result c (.inner kd (trSerial ser v))
+  | e => e
+
+def isInnerCall : Ev → Option Nat
+  | .innerCall _ k => some k
+  | _ => none
+
+/-- apply the operation to store `i` (if it concerns it); the events come out with case-wide serials -/
+def xstepStore (n : Nat) (ws : List String) (acc : XState × List Ev) (im : Nat × MState) : XState × List Ev :=
+  let (x, out) := acc
+  let (i, m) := im
+  let concerned : Bool := match parseOp ws with
+    | some op => concerns n i op
+    | none => false
+  if !concerned then ({ x with stores := x.stores ++ [m] }, out) else
+  let (m', evs, ev) := mstep m ws
+  -- a new inner call of this store gets the next serial of the case
+  let calls := evs.filterMap isInnerCall
+  let ser' := (calls.zipIdx.map fun (k, j) => (k, x.gser + j)) ++ m'.ser
+  let isArrive : Bool := match ws with | "arrive" :: _ => true | _ => false
+  let x' := { x with stores := x.stores ++ [{ m' with ser := ser' }],
+                     gser := x.gser + calls.length,
+                     hitN := x.hitN + (if isArrive && !evs.isEmpty && calls.isEmpty then 1 else 0),
+                     missN := x.missN + calls.length,
+                     evN := x.evN + (if ev then 1 else 0) }
+  (x', out ++ evs.map (trEv ser'))
+
+def xstep (x : XState) (ws : List String) : XState × List Ev :=
+  match ws with
+  | "probe" :: "events" :: _ =>
+      (x, [.probe (if x.listen then s!"events hit={x.hitN} miss={x.missN} evict={x.evN}" else "events off")])
+  | _ =>
+      let n := x.stores.length
+      (x.stores.zipIdx.map (fun (m, i) => (i, m))).foldl (xstepStore n ws) ({ x with stores := [] }, [])
 
 def machine : Machine where
-  σ := MState
+  σ := XState
   init kv :=
-    { cfg := { max := kv.nat "max" 1, ttl := kv.optNat "ttl", policy := parsePolicy (kv.str "policy" "lru") },
-      cands := [init] }
-  step := mstep
-  now := fun m => (m.cands.headD init).now
+    let cfg : Cfg := { max := kv.nat "max" builderDefaults.max, ttl := kv.optNat "ttl",
+                       policy := match kv.get "policy" with | some p => parsePolicy p | none => builderDefaults.policy }
+    let shared := kv.nat "shared" 0 != 0
+    let n := nStores shared (kv.nat "nsvc" (if shared then 2 else 1))
+    let listen := kv.nat "listen" 0 != 0
+    { cfg := cfg, stores := List.replicate n { cfg := cfg, cands := [init], listen := listen }, listen := listen }
+  step := xstep
+  now := fun x => (((x.stores.headD { cfg := x.cfg, cands := [init] }).cands).headD init).now
 
 end TR.Cache
